@@ -7,7 +7,7 @@ panic site is among the recorded events (which is the case for a scoped AST); in
 the `unreachable!()` sites of compiler.rs is reached.
 -/
 import TeraModel.Model.CompilerImp
-import TeraModel.Lemmas.CompilerEvents
+import TeraModel.Lemmas.CompilerKwOrder
 namespace Tera.Compiler.Imp
 open Tera Tera.Compiler
 
@@ -80,37 +80,34 @@ def ImM9 (m : List MapEntry) : Prop :=
 
 set_option maxHeartbeats 1600000 in
 theorem imp_eq_aux :
-    (∀ (_ : Nat) (_ : Option Nat) e, ImM1 e) ∧
-    (∀ (_ : Nat) (_ : Option Nat) ns, ImM2 ns) ∧
-    (∀ (_ : Nat) (_ : Option Nat) n, ImM3 n) ∧
-    (∀ (_ : Nat) (_ : Option Nat) k, ImM4 k) ∧
-    (∀ (_ : Nat) (_ : Option Nat) f, ImM5 f) ∧
-    (∀ (_ : Nat) (_ : Option Nat) o, ImM6 o) ∧
-    (∀ (_ : Nat) (_ : Option Nat) (_ : CInstr) o, ImM7 o) ∧
-    (∀ (_ : Nat) (_ : Option Nat) a, ImM8 a) ∧
-    (∀ (_ : Nat) (_ : Option Nat) m, ImM9 m) := by
-  apply exprCode.mutual_induct
-    (motive_1 := fun _ _ e => ImM1 e)
-    (motive_2 := fun _ _ ns => ImM2 ns)
-    (motive_3 := fun _ _ n => ImM3 n)
-    (motive_4 := fun _ _ k => ImM4 k)
-    (motive_5 := fun _ _ f => ImM5 f)
-    (motive_6 := fun _ _ o => ImM6 o)
-    (motive_7 := fun _ _ _ o => ImM7 o)
-    (motive_8 := fun _ _ a => ImM8 a)
-    (motive_9 := fun _ _ m => ImM9 m)
+    (∀ e, ImM1 e) ∧ (∀ ns, ImM2 ns) ∧ (∀ n, ImM3 n) ∧ (∀ k, ImM4 k) ∧ (∀ f, ImM5 f) ∧
+    (∀ o, ImM6 o ∧ ImM7 o) ∧ (∀ a, ImM8 a) ∧ (∀ m, ImM9 m) := by
+  apply reExpr.mutual_induct
+    (motive_1 := fun e => ImM1 e)
+    (motive_2 := fun ns => ImM2 ns)
+    (motive_3 := fun n => ImM3 n)
+    (motive_4 := fun k => ImM4 k)
+    (motive_5 := fun f => ImM5 f)
+    (motive_6 := fun o => ImM6 o ∧ ImM7 o)
+    (motive_7 := fun a => ImM8 a)
+    (motive_8 := fun m => ImM9 m)
   all_goals intros
-  all_goals simp only [ImM1, ImM2, ImM3, ImM4, ImM5, ImM6, ImM7, ImM8, ImM9] at *
+  all_goals (try simp only [ImM1, ImM2, ImM3, ImM4, ImM5, ImM6, ImM7, ImM8, ImM9] at *)
+  all_goals (try (refine ⟨?_, ?_⟩))
   all_goals intros
-  all_goals simp only [compileExpr, compileNodes, compileNode, compileKwargs, compileFilters, compileCond,
+  all_goals (try simp only [compileExpr, compileNodes, compileNode, compileKwargs, compileFilters, compileCond,
     compileOpt, compileArrayItems, compileMapItems, exprEvents, nodesEvents, nodeEvents, kwargsEvents,
     filtersEvents, optExprEvents, arrayItemsEvents, mapItemsEvents, allE_append, allE_cons, allE_nil,
-    and_true, true_and] at *
+    and_true, true_and] at *)
   all_goals (try (simp [NoPanicEv, Event.isPanic] at *; done))
-  all_goals (try ((try split) <;> (simp (config := { zetaDelta := true }) [*, exprCode, nodesCode, nodeCode,
-    kwargsCode, filtersCode, condCode, optExprCode, arrayItemsCode, mapItemsCode, Res, add, record,
-    List.append_assoc, sp, ns, storeKey, keyStore, NoPanicEv, Event.isPanic, Nat.add_assoc] at *) <;>
-    (try grind); done))
+  all_goals (try (
+    (try split)
+    all_goals (try simp (config := { zetaDelta := true }) [*, exprCode, nodesCode, nodeCode,
+      kwargsCode, filtersCode, condCode, optExprCode, arrayItemsCode, mapItemsCode, Res, add, record,
+      List.append_assoc, sp, ns, storeKey, keyStore, NoPanicEv, Event.isPanic, Nat.add_assoc, currentLoop,
+      endBranch, patchBranch, patchShort, patchIterate, patchPopJump] at *)
+    all_goals (try grind)
+    done))
   all_goals trace_state
   all_goals sorry
 
